@@ -18,10 +18,12 @@ def generate(repo):
     for n in TYPES:
         lines.append(f"Definition TYPE_{n} : N := {coq_N(type_const(src, n))}.")
     csrc = strip_tests(read(repo, "src/class.rs"))
-    ms = re.findall(r"pub\s+const\s+IN\s*:\s*Self\s*=\s*Self\(([^)]+)\)\s*;", csrc)
-    if len(ms) != 1:
-        raise GenError("src/class.rs: expected exactly one `const IN`")
-    lines += ["", "(* src/class.rs *)", f"Definition CLASS_IN : N := {coq_N(parse_int(ms[0]))}."]
+    lines += ["", "(* src/class.rs *)"]
+    for cn in ["IN", "CH"]:
+        ms = re.findall(r"pub\s+const\s+%s\s*:\s*Self\s*=\s*Self\(([^)]+)\)\s*;" % cn, csrc)
+        if len(ms) != 1:
+            raise GenError(f"src/class.rs: expected exactly one `const {cn}`")
+        lines.append(f"Definition CLASS_{cn} : N := {coq_N(parse_int(ms[0]))}.")
     lsrc = strip_tests(read(repo, "src/name/label.rs"))
     ms = re.findall(r'static\s+ASTERISK_LABEL\s*:\s*&\[u8;\s*(\d+)\]\s*=\s*b"([^"\\]*)"\s*;', lsrc)
     if len(ms) != 1 or int(ms[0][0]) != len(ms[0][1]):
